@@ -9,6 +9,7 @@ import (
 	"verifsim/mgmtsim"
 	"verifsim/objsim"
 	"verifsim/schedsim"
+	"verifsim/dvsim"
 	"verifsim/enginesim"
 	"verifsim/facesim"
 	"verifsim/fwsim"
@@ -41,6 +42,8 @@ func TestSim(t *testing.T) {
 		kit.Drive(t, schedsim.Engine{}, a)
 	case "objsim":
 		kit.Drive(t, objsim.Engine{}, a)
+	case "dvsim":
+		kit.Drive(t, dvsim.Engine{}, a)
 	case "fwsim":
 		kit.Drive(t, fwsim.Engine{}, a)
 	case "tablesim":
